@@ -291,12 +291,26 @@ def gen_cases(out, tier, scratch):
 
 # ---------------------------------------------------------------- property predicates on the implementation
 def make_image(cfg):
+    """Returns (DataArray, geobox or None, bands (B,H,W), expected transform).
+    cfg["derive"]: None      - DataArray built with xr_coords(geobox)
+                   "stride2" - a (2H, 2W) array decimated with [::2, ::2] (stale GeoTransform attribute, twice the pixel size)
+                   "coarsen2"- a (2H, 2W) array coarsened by 2 (max)
+                   "slice"   - a window [1:1+H, 2:2+W] of a larger array (stale GeoTransform origin)
+                   "handbuilt" - x/y labels + .odc.assign_crs(), no GeoTransform at all
+    For derived arrays the reference transform is computed from the coordinate labels with plain arithmetic."""
     import xarray as xr
+    from affine import Affine
     from odc.geo.xr import xr_coords
 
+    derive = cfg.get("derive")
     H, W, B, lay = cfg["H"], cfg["W"], cfg.get("B", 1), cfg["layout"]
+    if derive in ("stride2", "coarsen2"):
+        H, W = 2 * H, 2 * W
+    elif derive == "slice":
+        H, W = H + 3, W + 5
     dt = np.dtype(cfg["dtype"])
-    g = mk_gbox((H, W), rotated=cfg.get("rotated", False), crs=cfg.get("crs", "epsg:32633"))
+    spec = cfg.get("crs", "epsg:32633")
+    g = mk_gbox((H, W), rotated=cfg.get("rotated", False), crs=spec)
     yy, xx = np.meshgrid(np.arange(H), np.arange(W), indexing="ij")
     planes = []
     for b in range(B if lay != "YX" else 1):
@@ -311,15 +325,58 @@ def make_image(cfg):
         planes.append(v)
     yx = tuple(g.dimensions)
     if lay == "YX":
-        pix, dims, bands = planes[0], yx, planes
+        pix, dims = planes[0], yx
     elif lay == "BYX":
-        pix, dims, bands = np.stack(planes, 0), ("band", *yx), planes
+        pix, dims = np.stack(planes, 0), ("band", *yx)
     else:
-        pix, dims, bands = np.stack(planes, -1), (*yx, "band"), planes
+        pix, dims = np.stack(planes, -1), (*yx, "band")
     attrs = {}
     if cfg.get("nodata_attr") is not None:
         attrs["nodata"] = cfg["nodata_attr"]
-    return xr.DataArray(pix, dims=dims, coords=xr_coords(g), attrs=attrs), g, np.stack(bands, 0)
+    if derive == "handbuilt":
+        # pixel centres from plain arithmetic: origin (1000, 2000), pixel 4 x -4 (the numbers of mk_gbox)
+        coords = {yx[0]: 2000.0 - 4.0 * (np.arange(H) + 0.5), yx[1]: 1000.0 + 4.0 * (np.arange(W) + 0.5)}
+        arr = xr.DataArray(pix, dims=dims, coords=coords, attrs=attrs).odc.assign_crs(spec)
+    else:
+        arr = xr.DataArray(pix, dims=dims, coords=xr_coords(g), attrs=attrs)
+    if derive == "stride2":
+        arr = arr.isel({yx[0]: slice(None, None, 2), yx[1]: slice(None, None, 2)})
+    elif derive == "coarsen2":
+        arr = arr.coarsen({yx[0]: 2, yx[1]: 2}).max().astype(dt)
+        arr.attrs.update(attrs)
+    elif derive == "slice":
+        arr = arr.isel({yx[0]: slice(1, 1 + cfg["H"]), yx[1]: slice(2, 2 + cfg["W"])})
+    if derive:
+        ys, xs = arr[yx[0]].values, arr[yx[1]].values
+        dx, dy = float(xs[1] - xs[0]), float(ys[1] - ys[0])
+        want_tr = tuple(Affine(dx, 0.0, float(xs[0]) - dx / 2, 0.0, dy, float(ys[0]) - dy / 2))[:6]
+        g = None
+    else:
+        want_tr = tuple(g.transform)[:6]
+    vals = np.asarray(arr.values)
+    bands = vals[np.newaxis] if lay == "YX" else (vals if lay == "BYX" else vals.transpose(2, 0, 1))
+    return arr, g, bands, want_tr
+
+
+def apply_history(xx, names, spec):
+    """read-only queries on the array's CRS before (re)writing: the outcome of a write must not depend on them"""
+    from vlib import crshist
+
+    for h in names:
+        c = xx.odc.crs
+        if h == "epsg":
+            _ = c.epsg
+        elif h == "to_epsg":
+            c.to_epsg()
+        elif h == "str_hash":
+            _ = (str(c), hash(c), c.to_wkt())
+        elif h == "geobox":
+            gb = xx.odc.geobox
+            _ = (gb.crs.epsg, gb.crs.units, str(gb.crs))
+        elif h.startswith("crshist:"):
+            crshist.perturb((h.split(":", 1)[1],), specs=(spec,) + tuple(crshist.DEFAULT_SPECS[:3]))
+        else:
+            raise ValueError(h)
 
 
 def p_roundtrip(cfg):
@@ -329,8 +386,12 @@ def p_roundtrip(cfg):
     from odc.geo.cog import _rio as R
     from odc.geo.xr import xr_coords
 
-    xx, g, bands = make_image(cfg)
+    import pyproj
+
+    xx, g, bands, want_tr = make_image(cfg)
     H, W = cfg["H"], cfg["W"]
+    spec = cfg.get("crs", "epsg:32633")
+    ref_crs = pyproj.CRS(spec)              # the reference is pyproj on the original definition, not odc.geo.crs
     kw = {}
     for k in ("blocksize", "ovr_blocksize", "overview_levels", "use_windowed_writes", "intermediate_compression",
               "overview_resampling"):
@@ -353,6 +414,26 @@ def p_roundtrip(cfg):
             ext.append(xr.DataArray(ov, dims=xx.dims, coords=xr_coords(gk), attrs=dict(xx.attrs)))
         kw["overviews"] = ext
         kw.pop("overview_levels", None)
+    # passes: [history, write, examine] and, with "rewrite_after", [more queries, write again, examine again]
+    passes = [list(cfg.get("history", []))]
+    if cfg.get("rewrite_after") is not None:
+        passes.append(list(cfg["rewrite_after"]))
+    msgs = []
+    for n_pass, hist in enumerate(passes):
+        apply_history(xx, hist, spec)
+        m = roundtrip_pass(cfg, xx, g, bands, want_tr, ref_crs, kw, ext)
+        if m:
+            msgs += [(f"write {n_pass + 1} (after {hist}): " if len(passes) > 1 or hist else "") + x for x in m]
+            break
+    return not msgs, "; ".join(msgs[:3]) or f"{bands.shape} {cfg['dtype']} ok"
+
+
+def roundtrip_pass(cfg, xx, g, bands, want_tr, ref_crs, kw, ext):
+    import pyproj
+    import rasterio
+    from odc.geo.cog import _rio as R
+
+    H, W = cfg["H"], cfg["W"]
     work = None
     msgs = []
     try:
@@ -367,7 +448,7 @@ def p_roundtrip(cfg):
                 path = os.path.join(work, "out.tif")
                 ret = R.write_cog(xx, path, **kw)
                 if str(ret) != path:
-                    return False, f"write_cog returned {ret!r}"
+                    return [f"write_cog returned {ret!r}"]
                 tiles = tiff_tiles(path)
                 opener = lambda **o: rasterio.open(path, **o)
         with opener() as f:
@@ -377,12 +458,17 @@ def p_roundtrip(cfg):
         elif not np.array_equal(r["pix"], bands):
             bad = np.argwhere(r["pix"] != bands)[0].tolist()
             msgs.append(f"band {bad[0] + 1} row {bad[1]} col {bad[2]}: read {r['pix'][tuple(bad)]!r}, wrote {bands[tuple(bad)]!r}")
-        if r["transform"] != tuple(g.transform)[:6]:
-            msgs.append(f"transform {r['transform']} != {tuple(g.transform)[:6]}")
-        if r["crs"] is None or r["crs"].to_epsg() != g.crs.epsg:
-            msgs.append(f"crs {r['crs']} != {g.crs}")
+        if r["transform"] != want_tr:
+            msgs.append(f"transform {r['transform']} != {want_tr}")
+        got_crs = None if r["crs"] is None else pyproj.CRS.from_wkt(r["crs"].to_wkt())
+        if got_crs is None or not got_crs.equals(ref_crs, ignore_axis_order=True):
+            msgs.append(f"crs read back {got_crs.name if got_crs is not None else None!r} (datum {got_crs.datum.name if got_crs is not None else None!r}) "
+                        f"is not the CRS written {ref_crs.name!r} (datum {ref_crs.datum.name!r})")
         want_nd = cfg.get("nodata_kw") if cfg.get("nodata_kw") is not None else cfg.get("nodata_attr")
-        if (want_nd is None) != (r["nodata"] is None) or (want_nd is not None and float(r["nodata"]) != float(want_nd)):
+        same_nd = (want_nd is None and r["nodata"] is None) or (
+            want_nd is not None and r["nodata"] is not None and
+            (float(r["nodata"]) == float(want_nd) or (np.isnan(float(r["nodata"])) and np.isnan(float(want_nd)))))
+        if not same_nd:
             msgs.append(f"nodata {r['nodata']} != {want_nd}")
         if any(t is None or t[0] % 16 or t[1] % 16 or min(t) <= 0 for t in tiles):
             msgs.append(f"not internally tiled with multiples of 16 in every IFD: {tiles}")
@@ -415,7 +501,7 @@ def p_roundtrip(cfg):
     finally:
         if work:
             shutil.rmtree(work, ignore_errors=True)
-    return not msgs, "; ".join(msgs[:3]) or f"{bands.shape} {cfg['dtype']} ok"
+    return msgs
 
 
 def p_overwrite(exists, overwrite, api):
@@ -498,12 +584,50 @@ def p_reject(shape, gshape):
 
 
 PREDICATES = {"roundtrip": p_roundtrip, "overwrite": p_overwrite, "blocks": p_blocks, "reject": p_reject}
+from vlib import crshist as _crshist  # noqa: E402
+PREDICATES["after_history"] = _crshist.after_history(PREDICATES)
+
+
+# custom (non-EPSG) definitions; pyproj identifies the first four only approximately (>= 70 % confidence) with an
+# EPSG code that is a DIFFERENT CRS (other datum), the others have no code at all
+CUSTOM_CRS = ["+proj=utm +zone=55 +south +ellps=GRS80 +units=m +no_defs",
+              "+proj=utm +zone=33 +ellps=WGS84 +units=m +no_defs",
+              "+proj=tmerc +lat_0=0 +lon_0=15 +k=0.9996 +x_0=500000 +y_0=0 +ellps=GRS80 +units=m +no_defs",
+              "+proj=aea +lat_0=0 +lon_0=132 +lat_1=-18 +lat_2=-36 +x_0=0 +y_0=0 +ellps=GRS80 +units=m +no_defs",
+              "+proj=lcc +lat_1=33 +lat_2=45 +lat_0=39 +lon_0=-96 +x_0=0 +y_0=0 +datum=NAD83 +units=m +no_defs",
+              "+proj=sinu +lon_0=0 +x_0=0 +y_0=0 +R=6371007.181 +units=m +no_defs",
+              "+proj=longlat +ellps=GRS80 +no_defs"]
+HISTORIES = [["epsg"], ["to_epsg"], ["geobox"], ["str_hash", "epsg"], ["crshist:queries-first", "epsg"], ["crshist:churn", "to_epsg"]]
 
 
 def roundtrip_configs(tier):
     rng = core.rng("c15-rt")
     base = dict(layout="YX", H=20, W=30, B=1, dtype="int16")
     cfgs = [
+        # custom CRSs, written fresh, after read-only queries on the array's CRS, and written again after such queries
+        dict(base, crs=CUSTOM_CRS[0]),
+        dict(base, crs=CUSTOM_CRS[0], history=["epsg"]),
+        dict(base, crs=CUSTOM_CRS[0], rewrite_after=["epsg"], nodata_attr=-999),
+        dict(base, crs=CUSTOM_CRS[1], history=["to_epsg"], dest="file"),
+        dict(base, crs=CUSTOM_CRS[2], rewrite_after=["geobox"], layout="BYX", B=2),
+        dict(base, crs=CUSTOM_CRS[3], history=["crshist:queries-first", "epsg"], overview_levels=[2]),
+        dict(base, crs=CUSTOM_CRS[4], history=["epsg", "str_hash"]),
+        dict(base, crs=CUSTOM_CRS[5], rewrite_after=["to_epsg"], dest="file"),
+        dict(base, crs=CUSTOM_CRS[6], history=["epsg"]),
+        dict(base, crs="epsg:3577", history=["epsg", "str_hash"], rewrite_after=["geobox"]),
+        dict(base, crs=CUSTOM_CRS[0], history=["epsg"], H=16, W=24, external_overviews=[2]),
+        # images exactly two pixels tall / wide; arrays whose registration lives in the coordinate labels only
+        dict(base, H=2, W=32), dict(base, H=32, W=2, layout="BYX", B=2), dict(base, H=2, W=2, dtype="uint8"),
+        dict(base, H=2, W=32, derive="stride2"),
+        dict(base, H=16, W=2, derive="stride2", layout="YXB", B=2),
+        dict(base, H=2, W=8, derive="coarsen2", dtype="uint8"),
+        dict(base, H=2, W=7, derive="slice", dest="file"),
+        dict(base, H=2, W=48, derive="handbuilt", dtype="float64", nodata_attr=float("nan")),
+        dict(base, H=5, W=2, derive="handbuilt", layout="BYX", B=3),
+        dict(base, H=2, W=2, derive="handbuilt", dtype="uint8", nodata_kw=0),
+        dict(base, H=3, W=3, derive="stride2"), dict(base, H=17, W=40, derive="stride2", overview_levels=[2]),
+        dict(base, H=12, W=9, derive="coarsen2", layout="BYX", B=2), dict(base, H=9, W=21, derive="slice", crs="epsg:4326"),
+        dict(base, H=20, W=30, derive="handbuilt", crs=CUSTOM_CRS[0], history=["epsg"]),
         dict(base),
         dict(base, layout="BYX", B=3),
         dict(base, layout="YXB", B=3),
@@ -566,6 +690,17 @@ def roundtrip_configs(tier):
                  B=1 if lay == "YX" else rng.choice([1, 2, 3, 4, 5]),
                  dtype=rng.choice(["uint8", "int8", "uint16", "int16", "int32", "uint32", "float32", "float64"]),
                  rotated=rng.random() < 0.3, dest=rng.choice(["mem", "mem", "file"]))
+        r2 = rng.random()
+        if r2 < 0.2:
+            c["crs"] = rng.choice(CUSTOM_CRS)
+            c[rng.choice(["history", "rewrite_after"])] = rng.choice(HISTORIES)
+        elif r2 < 0.3:
+            c["crs"] = rng.choice(["epsg:4326", "epsg:3577", "epsg:3857"])
+        if rng.random() < 0.25 and min(c["H"], c["W"]) >= 2:
+            c["derive"] = rng.choice(["stride2", "coarsen2", "slice", "handbuilt"])
+            c["rotated"] = False
+            if rng.random() < 0.4:
+                c[rng.choice(["H", "W"])] = 2
         if min(c["H"], c["W"]) < 2:
             # a rotated grid with a one-pixel side is not recovered from the DataArray coordinates
             # (xarray geo-registration, property C09) - outside this property's generator
@@ -576,8 +711,9 @@ def roundtrip_configs(tier):
         if r < 0.3 and min(c["H"], c["W"]) >= 8:
             c["overview_levels"] = rng.choice([[2], [2, 4], [4], []])
         elif r < 0.55 and c["H"] % 4 == 0 and c["W"] % 4 == 0 and min(c["H"], c["W"]) >= 8:
-            c["external_overviews"] = rng.choice([[2], [2, 4]])
-            if lay != "YX" and rng.random() < 0.4:
+            if "derive" not in c:
+                c["external_overviews"] = rng.choice([[2], [2, 4]])
+            if "external_overviews" in c and lay != "YX" and rng.random() < 0.4:
                 c["B"] = c["W"] = c["H"]                   # cube
         if rng.random() < 0.3:
             c["nodata_attr"] = rng.choice([0, 1, 100])
@@ -615,6 +751,13 @@ def search(out, tier):
         out.count(f"roundtrip:layout:{cfg['layout']}")
         out.count(f"roundtrip:dtype:{cfg['dtype']}")
         out.count(f"roundtrip:dest:{cfg.get('dest', 'mem')}")
+    # the same round trips after process histories that fill the CRS layer's caches and lazy fields
+    rng = core.rng("c15-hist")
+    hist_cfgs = [dict(layout="YX", H=8, W=12, B=1, dtype="int16", crs=sp) for sp in CUSTOM_CRS[:4]]
+    hist_cfgs += [dict(layout="BYX", H=8, W=12, B=2, dtype="uint8", crs=sp, history=["epsg"]) for sp in rng.sample(CUSTOM_CRS, 2)]
+    for names in (["queries-first"], ["authority-order-first", "queries-first", "churn"]):
+        for cfg in hist_cfgs:
+            run("after_history", names, [cfg["crs"], "epsg:4326", "epsg:32755"], "roundtrip", [cfg])
     for exists, ow, api in itertools.product([False, True], [False, True], ["write_cog", "write_cog_str", "write_cog_layers"]):
         run("overwrite", exists, ow, api)
     for sh, gs in [((5, 7), (7, 5)), ((5, 7), (5, 8)), ((2, 5, 7), (7, 5)), ((5, 7, 2), (7, 5)), ((1, 1, 3), (2, 3)), ((3, 4, 5), (3, 5)),
